@@ -523,6 +523,62 @@ func (b *builder) build1(v *Val) interface{} {
 			m[kv] = b.sub(v, i)
 		}
 		return m
+	case "structblank":
+		return StructBlank{A: int(v.int(in)), B: v.str(in)}
+	case "structd":
+		d := StructD{Name: v.str(in), nb: NBytes(v.str(in)), ns: [2]NStr{NStr(v.str(in)), "n"}}
+		// (whole runes only: a rune cut in the middle is invalid UTF-8, which
+		// the library marks with '?' - outside the comparison with fmt)
+		copy(d.raw[:], wholeRunes(v.str(in), 4))
+		copy(d.Raw[:], wholeRunes(v.str(in), 3))
+		return d
+	case "byteerr":
+		return ByteErr('A' + uint64(v.int(in))%26)
+	case "berrslice":
+		// a slice of byte-kinded errors; with stand-ins in it, a slice of errors
+		typed := make([]ByteErr, 0, len(v.Sub))
+		var any []error
+		for i := range v.Sub {
+			x := b.sub(v, i)
+			if be, ok := x.(ByteErr); ok {
+				typed = append(typed, be)
+			}
+			e, _ := x.(error)
+			any = append(any, e)
+		}
+		if len(typed) == len(v.Sub) {
+			return typed
+		}
+		return any
+	case "byteerrslice":
+		// (letters: under %s %q %x a slice of byte-kinded elements is a byte string)
+		c := byte('A' + uint64(v.int(in))%26)
+		return []ByteErr{ByteErr(c), ByteErr(c | 1)}
+	case "bytestrarr":
+		c := byte('A' + uint64(v.int(in))%26)
+		return [3]ByteStringer{ByteStringer(c), ByteStringer(c | 1), 'z'}
+	case "sliceerr":
+		return SliceErr{v.str(in)}
+	case "nilsliceerr":
+		return SliceErr(nil)
+	case "funcstringer":
+		x := v.str(in)
+		return FuncStringer(func() string { return x })
+	case "nilfuncstringer":
+		return FuncStringer(nil)
+	case "mak":
+		// composite keys holding interfaces (Keys: pairs)
+		m := map[[2]interface{}]interface{}{}
+		for i := 0; i+1 < len(v.Keys); i += 2 {
+			m[[2]interface{}{b.build(v.Keys[i]), b.build(v.Keys[i+1])}] = b.sub(v, i/2)
+		}
+		return m
+	case "msk":
+		m := map[StructKey]interface{}{}
+		for i := 0; i+1 < len(v.Keys); i += 2 {
+			m[StructKey{A: b.build(v.Keys[i]), B: int(v.Keys[i+1].int(in))}] = b.sub(v, i/2)
+		}
+		return m
 	case "ystringer":
 		return YieldStringer{S: v.str(in), N: int(v.I)}
 	case "tagstruct":
@@ -747,4 +803,15 @@ func runFormatterOps(st fmt.State, verb rune, ops []*compiled, inst int) {
 			panic("HARNESS: unknown formatter op " + op.K)
 		}
 	}
+}
+
+// wholeRunes: the longest prefix of s of at most n bytes that ends at a rune boundary.
+func wholeRunes(s string, n int) string {
+	if len(s) <= n {
+		return s
+	}
+	for n > 0 && !utf8.RuneStart(s[n]) {
+		n--
+	}
+	return s[:n]
 }
